@@ -154,6 +154,10 @@ rf_wavheader_format_t rf_wavheader_get_format(rf_wavheader_t *wh)
 void rf_wavheader_init(rf_wavheader_t *wh, int sfreq, int num_channels,
 		rf_wavheader_format_t format)
 {
+	// fields that are not part of this format's header must be zero (as
+	// they are after decoding), not whatever the caller's memory held
+	memset(wh, 0, sizeof(*wh));
+
 	memcpy(wh->chunk_id, riff, 4);
 	memcpy(wh->format, wave, 4);
 
@@ -190,9 +194,10 @@ void rf_wavheader_set_num_frames(rf_wavheader_t *wh, unsigned int num_frames)
 	wh->chunk_size -= wh->data_chunk_size;
 
 	wh->data_chunk_size = num_frames * wh->block_align;
-	// doesn't matter if there is no fact chunk, we'll not emit this if this
+	// the sample length lives in the fact chunk, leave it alone if that
 	// chunk is absent
-	wh->sample_length = num_frames * wh->num_channels;
+	if (0 == memcmp(fact, wh->fact_chunk_id, 4))
+		wh->sample_length = num_frames * wh->num_channels;
 	wh->chunk_size += num_frames * wh->block_align;
 }
 
